@@ -410,6 +410,26 @@ func smpStr(xs []smp, bank bool) string {
 	return strings.Join(out, ";")
 }
 
+// obsStr: the samples field; if an observation call into the SDK panicked the field is `panic` (the
+// driver turns it into a verdict on the case) and the message is kept as a note.
+func obsStr(out *c.Out, xs []smp, bank bool, obsPanic string) string {
+	if obsPanic != "" {
+		if len(obsPanic) > 120 {
+			obsPanic = obsPanic[:120]
+		}
+		out.Note("observation-panic: " + obsPanic)
+		return "panic"
+	}
+	return smpStr(xs, bank)
+}
+
+// validStr: the real account's own Validate() ("1" ok, "0" error or panic)
+func validStr(a *vestingtypes.PeriodicVestingAccount) string {
+	ok := false
+	c.Recover(func() { ok = a.Validate() == nil })
+	return c.B(ok)
+}
+
 // ------------------------------------------------------------------------------------------ c20.sched
 
 func branchSig(now, length int64, a *vestingtypes.PeriodicVestingAccount) string {
@@ -505,6 +525,7 @@ func (w *world) seqSched(out *c.Out, seq int, r *c.Rng) {
 			}
 			post := ak.GetAccount(ctx, addr).(*vestingtypes.PeriodicVestingAccount)
 			var xs []smp
+			obsPanic := ""
 			if wf && length > 0 {
 				for _, t := range sampleTimes(r, now, length, pre, post) {
 					var x smp
@@ -514,12 +535,15 @@ func (w *world) seqSched(out *c.Out, seq int, r *c.Rng) {
 						x.v2, x.l2 = vecOf(post.GetVestingCoins(at(t))), vecOf(post.LockedCoins(at(t)))
 					})
 					if p {
-						out.Violation(fmt.Sprintf("seq=%d GetVestingCoins/LockedCoins panicked after a payout to a well-formed account: %s", seq, m))
+						if obsPanic == "" {
+							obsPanic = fmt.Sprintf("GetVestingCoins/LockedCoins t=%d: %s", t, m)
+						}
 						continue
 					}
 					xs = append(xs, x)
 				}
 			}
+			valid := validStr(post)
 			sig := ""
 			if wf && length > 0 {
 				sig = fmt.Sprintf("%s|%s|np=%d|dv=%v|claim=%d", branchSig(now, length, pre), phase, min(len(pre.VestingPeriods), 4), !pre.DelegatedVesting.IsZero(), min(j, 2))
@@ -530,7 +554,7 @@ func (w *world) seqSched(out *c.Out, seq int, r *c.Rng) {
 			f = append(f, pvaFields(pre)...)
 			f = append(f, amt.String(), strconv.FormatInt(length, 10), "=>")
 			f = append(f, pvaFields(post)...)
-			f = append(f, smpStr(xs, false))
+			f = append(f, obsStr(out, xs, false, obsPanic), valid)
 			out.Case(sig, "c20.sched", f...)
 			i++
 			pva = post
@@ -825,28 +849,44 @@ func (w *world) seqSend(out *c.Out, seq int, r *c.Rng) {
 		postKind := kindOf(postAcc)
 		postPva := getPva(postCtx, p)
 		var xs []smp
+		obsPanic := ""
 		if cls == "ok" && (preKind == "base" || preKind == "periodic") {
 			for _, t := range sampleTimes(r, now, length, prePva, postPva) {
 				x := smp{t: t}
 				pc, qc := ctx.WithBlockTime(at(t)), postCtx.WithBlockTime(at(t))
-				if va, ok := preAcc.(vestexported.VestingAccount); ok {
-					x.v = vecOf(va.GetVestingCoins(at(t)))
+				// every call into the real SDK is an observation: a panic there is a verdict, not a crash
+				pnk, m := c.Recover(func() {
+					if va, ok := preAcc.(vestexported.VestingAccount); ok {
+						x.v = vecOf(va.GetVestingCoins(at(t)))
+					}
+					if va, ok := postAcc.(vestexported.VestingAccount); ok {
+						x.v2 = vecOf(va.GetVestingCoins(at(t)))
+					}
+					x.l, x.l2 = vecOf(bk.LockedCoins(pc, p.addr)), vecOf(bk.LockedCoins(qc, p.addr))
+					x.s, x.s2 = vecOf(bk.SpendableCoins(pc, p.addr)), vecOf(bk.SpendableCoins(qc, p.addr))
+				})
+				if pnk {
+					if obsPanic == "" {
+						obsPanic = fmt.Sprintf("GetVestingCoins/LockedCoins/SpendableCoins t=%d: %s", t, m)
+					}
+					continue
 				}
-				if va, ok := postAcc.(vestexported.VestingAccount); ok {
-					x.v2 = vecOf(va.GetVestingCoins(at(t)))
-				}
-				x.l, x.l2 = vecOf(bk.LockedCoins(pc, p.addr)), vecOf(bk.LockedCoins(qc, p.addr))
-				x.s, x.s2 = vecOf(bk.SpendableCoins(pc, p.addr)), vecOf(bk.SpendableCoins(qc, p.addr))
 				xs = append(xs, x)
 			}
 		}
+		valid := "-"
+		if cls == "ok" && postPva != nil {
+			valid = validStr(postPva)
+		}
 		over := false
 		if prePva != nil {
-			v := vecOf(prePva.GetVestingCoins(at(now)))
-			dv := vecOf(prePva.DelegatedVesting)
-			for d := range v {
-				over = over || dv[d] > v[d]
-			}
+			c.Recover(func() {
+				v := vecOf(prePva.GetVestingCoins(at(now)))
+				dv := vecOf(prePva.DelegatedVesting)
+				for d := range v {
+					over = over || dv[d] > v[d]
+				}
+			})
 		}
 		sig := fmt.Sprintf("%s|%s|len=%s|blocked=%v", preKind, cls, genLen, blocked)
 		if cls == "ok" && prePva != nil && length > 0 {
@@ -865,7 +905,7 @@ func (w *world) seqSend(out *c.Out, seq int, r *c.Rng) {
 		} else {
 			f = append(f, noPva...)
 		}
-		f = append(f, smpStr(xs, true), raw)
+		f = append(f, obsStr(out, xs, true, obsPanic), raw, valid)
 		out.Case(sig, "c20.send", f...)
 		if cls == "ok" {
 			write()
